@@ -79,7 +79,7 @@ def r13_1(ctx: Ctx) -> RuleResult:
         if alias not in br or std not in br:
             continue
         ta, ts = _term(br[alias][1], left, right), _term(br[std][1], left, right)
-        same_branch = br[alias][0] is br[std][0]
+        same_branch = False
         if same_branch or (ta is not None and ta == ts) or ast.unparse(br[alias][1]) == ast.unparse(br[std][1]):
             rr.ok(fn.loc(br[alias][0]), f"`{alias}` computes the same as `{std}`")
         else:
@@ -157,18 +157,14 @@ def r13_3(ctx: Ctx) -> RuleResult:
     if "in" not in br or "contains" not in br:
         rr.bad(fn, fn.node, "compare() lacks a branch for `in` or `contains`", construct="in/contains branches")
         return rr
-    n_in = copy.deepcopy(br["in"][0])
-    n_in.orelse = []
-    n_co = copy.deepcopy(br["contains"][0])
-    n_co.orelse = []
-    swapped = _Swap(left, right).visit(n_in)
-    a = ast.unparse(swapped).replace("'in'", "'OP'")
-    b = ast.unparse(n_co).replace("'contains'", "'OP'")
+    swapped = _Swap(left, right).visit(copy.deepcopy(br["in"][1]))
+    a = ast.unparse(swapped)
+    b = ast.unparse(br["contains"][1])
     if a == b:
-        rr.ok(fn.loc(br["contains"][0]), "`a contains b` is evaluated as `b in a`")
+        rr.ok(fn.loc(br["contains"][0]), f"`a contains b` is evaluated as `b in a`: {b[:80]}")
     else:
-        rr.bad(fn, br["contains"][0], "the `contains` branch is not the `in` branch with the operands swapped",
-               construct=f"contains: {short(br['contains'][0].test)} -> {short(br['contains'][1])}")
+        rr.bad(fn, br["contains"][0], "the `contains` branch is not the `in` branch with the operands swapped: "
+               f"`{b[:80]}` vs swapped `{a[:80]}`", construct=f"contains: {b[:100]}")
     return rr
 
 
@@ -192,10 +188,20 @@ def r13_4(ctx: Ctx) -> RuleResult:
     flagvar = path_of(comp[0].args[1])
     ored = False
     for n in ast.walk(pr.node):
+        v = None
         if isinstance(n, ast.AugAssign) and isinstance(n.op, ast.BitOr) and path_of(n.target) == flagvar:
             v = n.value
-            if isinstance(v, ast.Subscript) and "RE_FLAG_MAP" in ast.unparse(v.value):
-                ored = True
+        elif (
+            isinstance(n, ast.Assign) and len(n.targets) == 1 and path_of(n.targets[0]) == flagvar
+            and isinstance(n.value, ast.BinOp) and isinstance(n.value.op, ast.BitOr)
+        ):
+            # flags = flags | X  (or X | flags)
+            sides = [n.value.left, n.value.right]
+            others = [x for x in sides if path_of(x) != flagvar]
+            if len(others) == 1:
+                v = others[0]
+        if isinstance(v, ast.Subscript) and "RE_FLAG_MAP" in ast.unparse(v.value):
+            ored = True
     if ored:
         rr.ok(pr.loc(comp[0]), "every flag letter is OR-ed through RE_FLAG_MAP into re.compile")
     else:
